@@ -43,6 +43,10 @@ OBLIGATIONS = [
     "C12_idempotent_after_one",
     # float side: r32 (the executable binary32 rounding tied to torch) is idempotent on every rational -> no cast hypothesis
     "C12_r32_idempotent", "C12_idempotent_after_one_r32",
+    # Io/F32.v (round_bin / f32 / f64 / store32, the cast of the ingestion model of C14 / C20): idempotent, monotone, and the
+    # C14 age collision for every pair of ages of the interval
+    "C12_round_bin_idempotent", "C12_round_bin_monotone", "C12_store32_monotone", "C12_store32_defined",
+    "C12_store32_collision_interval",
     "C12_instance_name_refuted", "C12_instance_name_case_refuted", "C12_univariate_default_refuted",
     "C12_scalar_noise_shape_refuted", "C12_float64_refuted",
     # composition with C01 (coq/theories/Compose/): the store hypotheses discharged on the real State model
@@ -1343,6 +1347,12 @@ def _check(run: Run, thorough: bool, version: str, tmp: Path):
     for i in bad or []:
         run.fail("tie:float32-rounding", "r32 (model of torch.tensor's float32 cast) differs from torch", dict(value=vals[i // 2], fixed_point_case=bool(i % 2)),
                  kind="broken-correspondence")
+    # the other executable rounding (Io/F32.v: f32 / store32, about which C12_round_bin_* / C12_store32_* speak) on the same values
+    hdr_f = hdr + "From Leaspy Require Import Io.R32.\n"
+    bad = run.vm_bad_indices("f32", hdr_f, "Q * Q", r_cases, "f32_case_ok")
+    for i in bad or []:
+        run.fail("tie:float32-rounding-f32", "F32.f32 / F32.store32 (float32 store of the ingestion model) differ from torch or from r32",
+                 dict(value=vals[i // 2], fixed_point_case=bool(i % 2)), kind="broken-correspondence")
 
 
 def main(run: Run):
